@@ -1,7 +1,8 @@
 """C07, end-to-end half (DESIGN.md S3 / 4.7): real executables started through tiny-std's `_start`.
 
-The probe /verif/engines/probe-start is built from the repository's current tree in the three
-link modes x {debug, release}; every binary is exec'd (fork + raw execve, so that argv and envp
+The probe /verif/engines/probe-start is built from the repository's current tree in every legal cell of
+feature set (FEATURE_SETS below: executable / aux / no aux / threaded variants) x the three link modes x
+{debug, release}; every binary is exec'd (fork + raw execve, so that argv and envp
 are arbitrary byte strings, argv may be empty, envp may hold duplicates and entries without '=')
 with an enumerated family of (argv, envp, lookup keys).  The probe echoes, length-prefixed, what
 tiny-std handed to the program; this module compares byte for byte with what was passed to
@@ -45,7 +46,46 @@ MODES = [
     ("staticpie", "-C target-feature=+crt-static -C relocation-model=pie"),
 ]
 PROFILES = ["debug", "release"]
-CONFIGS = [(m, p) for m, _ in MODES for p in PROFILES]
+CONFIGS = [(m, p) for m, _ in MODES for p in PROFILES]  # the six (mode, profile) pairs of one feature set
+
+# FEATURE SETS under which a binary can legally be started through tiny-std's `_start` (read off
+# tiny-std/Cargo.toml + tiny-start/Cargo.toml and the `cfg(feature` sites in tiny-start/src and
+# tiny-std/src/{start,env,elf}*): `_start`/`__proxy_main` need start+symbols; `aux` selects the other copy of
+# tiny_start::start::resolve (aux collection + self-relocation); `vdso` (needs aux) adds init_vdso_get_time();
+# `threaded` (needs alloc + an allocator) adds the main-thread TLS block.  `alloc` alone changes nothing on the
+# start-up path and is covered through `threaded`.  Without `aux` nothing relocates a static PIE (documented at
+# tiny_start::start::resolve: "this will segfault"), so that cell is not legal.
+#   name, cargo feature of the probe, tiny-std features it needs, what is compiled, legal link modes
+FEATURE_SETS = [
+    dict(name="exe", feat="fs-exe", needs=["executable"], aux=True, vdso=True, threaded=False, modes=("dyn", "static", "staticpie")),
+    dict(name="aux", feat="fs-aux", needs=["start", "symbols", "aux"], aux=True, vdso=False, threaded=False, modes=("dyn", "static", "staticpie")),
+    dict(name="noaux", feat="fs-noaux", needs=["start", "symbols"], aux=False, vdso=False, threaded=False, modes=("dyn", "static")),
+    dict(name="exe-threaded", feat="fs-exe-threaded", needs=["executable", "threaded", "global-allocator"], aux=True, vdso=True, threaded=True,
+         modes=("dyn", "static", "staticpie")),
+    dict(name="noaux-threaded", feat="fs-noaux-threaded", needs=["start", "symbols", "threaded", "global-allocator"], aux=False, vdso=False,
+         threaded=True, modes=("dyn", "static")),
+]
+FS_BY = {f["name"]: f for f in FEATURE_SETS}
+# every legal (feature set, mode, profile) cell; "exe" first so that the full sweep's keys stay as they were
+CELLS = [(f["name"], m, p) for f in FEATURE_SETS for m, _ in MODES if m in f["modes"] for p in PROFILES]
+ILLEGAL_CELLS = [(f["name"], m) for f in FEATURE_SETS for m, _ in MODES if m not in f["modes"]]
+
+
+def cfg_name(fs, mode, profile):
+    """`<mode>-<profile>` for the `executable` umbrella (as before), `<mode>-<feature set>-<profile>` otherwise"""
+    return f"{mode}-{profile}" if fs == "exe" else f"{mode}-{fs}-{profile}"
+
+
+def cell_of(cfg):
+    parts = cfg.split("-")
+    mode, profile, fs = parts[0], parts[-1], "-".join(parts[1:-1]) or "exe"
+    if fs not in FS_BY or mode not in dict(MODES) or profile not in PROFILES:
+        _machinery(f"unknown configuration name {cfg}")
+    return fs, mode, profile
+
+
+def _target_sub(fs, mode):
+    return mode if fs == "exe" else f"{mode}.{fs}"
 N_PAIRS = 1000
 EXEC_TIMEOUT = 30.0
 
@@ -57,10 +97,10 @@ def _rustflags(mode):
 
 # what `./check --setup` can prebuild (same environment as _cargo_build, so nothing is rebuilt later)
 SETUP_BUILDS = [
-    dict(pkg="probe-start", bin="probe-start", cwd=PROBE_SRC, target_dir=os.path.join(TARGET_ROOT, m),
-         profile=("dev" if p == "debug" else "release"),
+    dict(pkg="probe-start", bin="probe-start", cwd=PROBE_SRC, target_dir=os.path.join(TARGET_ROOT, _target_sub(fs, m)),
+         profile=("dev" if p == "debug" else "release"), features=[FS_BY[fs]["feat"]],
          build_env={"RUSTFLAGS": _rustflags(m), "CARGO_BUILD_TARGET": TRIPLE})
-    for m, p in CONFIGS
+    for fs, m, p in CELLS
 ]
 
 
@@ -93,45 +133,61 @@ def _crate_and_targets():
     return crate, os.path.join(base, "target"), alt
 
 
-def _bin_path(target_root, mode, profile):
-    return os.path.join(target_root, mode, TRIPLE, profile, "probe-start")
+def _bin_path(target_root, fs, mode, profile):
+    return os.path.join(target_root, _target_sub(fs, mode), TRIPLE, profile, "probe-start")
 
 
-def _cargo_build(crate, target_root, mode, profile, env):
+def repo_features(repo):
+    """names in the [features] table of <repo>/tiny-std/Cargo.toml"""
+    names, inside = set(), False
+    try:
+        for line in open(os.path.join(repo, "tiny-std", "Cargo.toml")):
+            line = line.strip()
+            if line.startswith("["):
+                inside = line == "[features]"
+            elif inside and "=" in line and not line.startswith("#"):
+                names.add(line.split("=")[0].strip())
+    except OSError:
+        pass
+    return names
+
+
+def _cargo_build(crate, target_root, fs, mode, profile, env):
     e = dict(env)
     for k in ("CARGO_ENCODED_RUSTFLAGS", "CARGO_BUILD_RUSTFLAGS", "RUSTC_WRAPPER"):
         e.pop(k, None)
     e["CARGO_NET_OFFLINE"] = "true"
     e["RUSTFLAGS"] = _rustflags(mode)
     e["CARGO_BUILD_TARGET"] = TRIPLE
-    e["CARGO_TARGET_DIR"] = os.path.join(target_root, mode)
+    e["CARGO_TARGET_DIR"] = os.path.join(target_root, _target_sub(fs, mode))
     e.setdefault("CARGO_TERM_COLOR", "never")
     cmd = ["cargo", "build", "--offline", "-p", "probe-start", "--bin", "probe-start"]
     if profile == "release":
         cmd += ["--profile", "release"]
+    cmd += ["--features", FS_BY[fs]["feat"]]
     t0 = time.time()
     p = subprocess.run(cmd, cwd=crate, env=e, stdout=subprocess.PIPE, stderr=subprocess.STDOUT, text=True)
-    path = _bin_path(target_root, mode, profile)
+    path = _bin_path(target_root, fs, mode, profile)
     ok = p.returncode == 0 and os.path.exists(path)
     tail = ""
     if not ok:
         lines = [l for l in p.stdout.splitlines() if l.startswith("error") or "undefined" in l]
         tail = " | ".join((lines or p.stdout.splitlines()[-6:])[:6])[:600]
-    return dict(mode=mode, profile=profile, ok=ok, path=path, secs=round(time.time() - t0, 1), err=tail)
+    return dict(fs=fs, mode=mode, profile=profile, ok=ok, path=path, secs=round(time.time() - t0, 1), err=tail)
 
 
-def builds(env=None, configs=None):
-    """Build the probe in every configuration (in parallel; cargo makes this a no-op when nothing
-    changed in the repository tree).  Returns {"<mode>-<profile>": {ok, path, secs, err}}."""
+def builds(env=None, cells=None):
+    """Build the probe in every legal (feature set, link mode, profile) cell, in parallel; cargo makes this a
+    no-op when nothing changed in the repository tree.  Returns {cfg_name: {fs, mode, profile, ok, path, secs, err}}."""
     env = dict(os.environ if env is None else env)
     crate, target_root, _ = _crate_and_targets()
-    configs = configs or CONFIGS
+    cells = cells or CELLS
     out = {}
-    with concurrent.futures.ThreadPoolExecutor(max_workers=len(configs)) as ex:
-        futs = [ex.submit(_cargo_build, crate, target_root, m, p, env) for m, p in configs]
+    with concurrent.futures.ThreadPoolExecutor(max_workers=min(16, len(cells))) as ex:
+        futs = [ex.submit(_cargo_build, crate, target_root, fs, m, p, env) for fs, m, p in cells]
         for f in futs:
             r = f.result()
-            out[f"{r['mode']}-{r['profile']}"] = r
+            out[cfg_name(r["fs"], r["mode"], r["profile"])] = r
     return out
 
 
@@ -331,6 +387,12 @@ for _k in range(2, 17):
     ENV_SHAPES.append((f"envc-{_k}", [b"N%d=%s" % (i, b"vwxyz01"[: (i * 5 + _k) % 7]) for i in range(_k)],
                        [b"N0", b"N%d" % (_k - 1), b"N%d" % _k, b"N"]))
 
+# three plain entries: the first, the last and a middle one are looked up (used by the reduced sweep)
+ENV_SHAPES.append(("three", [b"A=first", b"B=mid", b"C=last"], [b"A", b"C", b"B", b"D"]))
+QUICK_ENV.append("three")
+ENV_SHAPES.append(("fixed-key-last", [b"A=1", b"C07_PROBE_ALWAY=short", b"C07_PROBE_ALWAYS=here", b"C07_PROBE_ALWAYS=second"], [b"A", b"C07_PROBE_ALWAYS"]))
+QUICK_ENV.append("fixed-key-last")
+
 ARGV_BY = {n: (a, k) for n, a, k in ARGV_SHAPES}
 ENV_BY = {n: (e, k) for n, e, k in ENV_SHAPES}
 
@@ -355,6 +417,13 @@ def shape_pairs(tier):
         if p not in pairs:
             pairs.append(p)
     return pairs
+
+
+def reduced_pairs():
+    """Quick-tier sweep of the feature sets other than `executable`: argc in {0, 1, >= 3 (with lookup keys)} x
+    envp in {empty, one entry, three entries (first / last / middle entry wanted), typical, prefix names}."""
+    return [(a, e) for a in ("argv0-only", "one-arg", "argc0") for e in ("empty", "one", "three")] + \
+           [("one-arg", "prefix-short-first"), ("one-arg", "typical"), ("one-arg", "dup-first-wins"), ("argv0-only", "fixed-key-last")]
 
 
 def materialise(argv_shape, env_shape):
@@ -396,6 +465,9 @@ def parse_records(out):
     return recs, True
 
 
+FIXED_KEY = b"C07_PROBE_ALWAYS"
+
+
 def ref_lookup(envp, key):
     """value of the first entry whose bytes before the first '=' equal the key"""
     for e in envp:
@@ -429,7 +501,7 @@ AUX_FIELD_ORDER = ["at_base", "at_gid", "at_uid", "at_phdr", "at_phent", "at_phn
                    "at_sysinfo_ehdr", "at_execfn"]
 
 
-def judge(path, argv, envp, exit_code, peek_plan, res, ids=None):
+def judge(path, argv, envp, exit_code, peek_plan, res, ids=None, fs="exe"):
     """Compare one run with what was passed.  Returns (problems [(key suffix, text)], outcomes [str], facts)."""
     kind, code, out, err = res
     problems, outcomes, facts = [], [], {}
@@ -452,6 +524,15 @@ def judge(path, argv, envp, exit_code, peek_plan, res, ids=None):
     by = {}
     for t, p in recs:
         by.setdefault(t, []).append(p)
+
+    fsd = FS_BY[fs]
+    if b"F" in by:
+        flags = by[b"F"][0][0]
+        fs_base, = struct.unpack_from("<Q", by[b"F"][0], 1)
+        if flags != (int(fsd["aux"]) | int(fsd["vdso"]) << 1 | int(fsd["threaded"]) << 2):
+            facts["feature_flags_mismatch"] = flags
+        if fsd["threaded"]:
+            outcomes.append("tls:fs-base-installed" if fs_base else "tls:fs-base-zero")
 
     # ---- arguments
     expect_argv = [argv] if argv else [[], [b""]]  # Linux >= 5.18 turns an empty argv into [""]
@@ -501,10 +582,36 @@ def judge(path, argv, envp, exit_code, peek_plan, res, ids=None):
                                               f"envp={_show_list(envp)}"))
             outcomes.append("var:" + {b"\0": "found", b"\x01": "missing", b"\x02": "not-unicode"}[want_v[:1]])
 
-    # ---- auxiliary values
-    if b"X" not in by:
+    # the fixed key every run looks up (walks the whole block when absent), also without `--keys`
+    want = ref_lookup(envp, FIXED_KEY)
+    want_u = (b"\0" + want) if want is not None else b"\x01"
+    want_v = b"\x01" if want is None else ((b"\0" + want) if _is_utf8(want) else b"\x02")
+    if by.get(b"W", [None])[0] != want_u:
+        problems.append(("var_unix-wrong", f"var_unix({_show(FIXED_KEY)}) gave {_decode_lookup(by[b'W'][0]) if b'W' in by else 'no record'}, "
+                                           f"first matching entry says {_decode_lookup(want_u)}; envp={_show_list(envp)}"))
+    if by.get(b"w", [None])[0] != want_v:
+        problems.append(("var-wrong", f"var({_show(FIXED_KEY)}) gave {_decode_lookup(by[b'w'][0]) if b'w' in by else 'no record'}, "
+                                      f"first matching entry says {_decode_lookup(want_v)}; envp={_show_list(envp)}"))
+    outcomes.append("fixed-key:" + ("found" if want is not None else "missing-after-full-walk"))
+
+    # ---- auxiliary values (getters and stored struct only where feature `aux` is compiled)
+    aux = parse_auxv(by[b"X"][0]) if b"X" in by else None
+    peeks = {p[0]: p[1:] for p in by.get(b"P", [])}
+    names = [n for n, _, _ in peek_plan]
+    if aux is None:
         facts["auxv_unreadable"] = True
         outcomes.append("aux:proc-auxv-unreadable")
+    else:
+        facts["auxv_keys"] = sorted(aux)
+        if (aux.get(11), aux.get(13)) != (tuple(ids[:2]) if ids else (os.getuid(), os.getgid())):
+            facts["auxv_uid_mismatch_with_driver"] = True
+        if b"E" in by and by[b"E"][0] != os.fsencode(path):
+            facts["execfn_not_exec_path"] = _show(by[b"E"][0])
+    if not fsd["aux"]:
+        outcomes.append("aux:not-compiled-in-this-feature-set")
+        if any(t in by for t in (b"u", b"g", b"r", b"e", b"O")):
+            facts["feature_flags_mismatch"] = "aux records from a binary without aux"
+    elif aux is None:
         if ids and len(ids) == 4 and b"u" in by and b"g" in by:
             # split credentials make the process non-dumpable, so it cannot read its own auxv: compare the getters
             # with the REAL ids the driver installed (AT_UID / AT_GID are the real ids, not the effective ones)
@@ -516,10 +623,6 @@ def judge(path, argv, envp, exit_code, peek_plan, res, ids=None):
                 problems.append(("aux-get_gid-differs", f"get_gid()={got_gid} under real gid {ids[1]} / effective gid {ids[3]}: AT_GID is the real gid"))
             outcomes.append("aux:getters-compared-with-split-credentials")
     else:
-        aux = parse_auxv(by[b"X"][0])
-        facts["auxv_keys"] = sorted(aux)
-        if (aux.get(11), aux.get(13)) != (tuple(ids[:2]) if ids else (os.getuid(), os.getgid())):
-            facts["auxv_uid_mismatch_with_driver"] = True
         got_uid, = struct.unpack("<I", by[b"u"][0])
         got_gid, = struct.unpack("<I", by[b"g"][0])
         if got_uid != (aux.get(11, 0) & 0xFFFFFFFF):
@@ -534,12 +637,8 @@ def judge(path, argv, envp, exit_code, peek_plan, res, ids=None):
         want_e = (b"\x01" + by[b"E"][0]) if aux.get(31) and b"E" in by else b"\0"
         if e != want_e:
             problems.append(("aux-get_exec_fn-differs", f"get_exec_fn() -> {_show(e)}, string at AT_EXECFN -> {_show(want_e)} (leading 1=Some, 0=None)"))
-        if b"E" in by and by[b"E"][0] != os.fsencode(path):
-            facts["execfn_not_exec_path"] = _show(by[b"E"][0])
         outcomes.append("aux:getters-compared")
         # the stored struct, dumped from the private static
-        peeks = {p[0]: p[1:] for p in by.get(b"P", [])}
-        names = [n for n, _, _ in peek_plan]
         if "aux" in names and b"O" in by:
             raw = peeks.get(names.index("aux"))
             offs = struct.unpack("<11H", by[b"O"][0])
@@ -550,40 +649,43 @@ def judge(path, argv, envp, exit_code, peek_plan, res, ids=None):
                     if have != want:
                         problems.append((f"aux-{fname}-differs", f"stored {fname}={have:#x}, /proc/self/auxv says {want:#x}"))
                 outcomes.append("aux:stored-struct-compared")
-        # ---- vDSO
-        ptr = None
-        if "vdso" in names:
-            raw = peeks.get(names.index("vdso"))
-            if raw is not None and len(raw) == 8:
-                ptr, = struct.unpack("<Q", raw)
-        facts["vdso_ptr_known"] = ptr is not None
-        lib_ns = sys_ns = 0
-        for t in by.get(b"T", []):
-            clk = t[0]
-            n, ok, below, above, back = struct.unpack_from("<5I", t, 1)
-            tri = struct.unpack_from("<6q", t, 21)
-            lib_ns, sys_ns = struct.unpack_from("<QQ", t, 69)
-            cname = {0: "CLOCK_REALTIME", 1: "CLOCK_MONOTONIC"}[clk]
+    # ---- clock: library now() against the clock_gettime system call (vDSO clause live only with feature `vdso`)
+    ptr = None
+    if "vdso" in names:
+        raw = peeks.get(names.index("vdso"))
+        if raw is not None and len(raw) == 8:
+            ptr, = struct.unpack("<Q", raw)
+    facts["vdso_ptr_known"] = ptr is not None
+    lib_ns = sys_ns = 0
+    for t in by.get(b"T", []):
+        clk = t[0]
+        n, ok, below, above, back = struct.unpack_from("<5I", t, 1)
+        tri = struct.unpack_from("<6q", t, 21)
+        lib_ns, sys_ns = struct.unpack_from("<QQ", t, 69)
+        cname = {0: "CLOCK_REALTIME", 1: "CLOCK_MONOTONIC"}[clk]
+        if fsd["vdso"]:
             facts.setdefault("vdso_pairs", 0)
             facts["vdso_pairs"] += ok
-            if below or above:
-                problems.append(("vdso-disagrees", f"{cname}: {below + above} of {n} library readings outside the two surrounding clock_gettime "
-                                                   f"system calls ({below} earlier, {above} later); first: before={tri[0]}.{tri[1]:09d} lib={tri[2]}.{tri[3]:09d} "
-                                                   f"after={tri[4]}.{tri[5]:09d}; vdso pointer={'unknown' if ptr is None else hex(ptr)}"))
-            if back:
-                outcomes.append("vdso:clock-stepped-back-between-syscalls")
-        if ptr is None:
-            # no symbol table: fall back to timing (informational)
-            in_use = lib_ns * 2 < sys_ns
-            outcomes.append("vdso:in-use-by-timing" if in_use else "vdso:unknown-or-not-in-use-by-timing")
-        elif ptr:
-            outcomes.append("vdso:function-found-clause-live")
-            if aux.get(33) and not (aux[33] <= ptr < aux[33] + 0x4000):
-                facts["vdso_ptr_outside_vdso"] = hex(ptr)
-        else:
-            outcomes.append("vdso:function-not-found-clause-vacuous" if aux.get(33) else "vdso:no-vdso-mapped-clause-vacuous")
-        facts["lib_ns_per_call"] = lib_ns / N_PAIRS
-        facts["sys_ns_per_call"] = sys_ns / N_PAIRS
+        if below or above:
+            problems.append(("vdso-disagrees", f"{cname}: {below + above} of {n} library readings outside the two surrounding clock_gettime "
+                                               f"system calls ({below} earlier, {above} later); first: before={tri[0]}.{tri[1]:09d} lib={tri[2]}.{tri[3]:09d} "
+                                               f"after={tri[4]}.{tri[5]:09d}; vdso pointer={'unknown' if ptr is None else hex(ptr)}"))
+        if back:
+            outcomes.append("vdso:clock-stepped-back-between-syscalls")
+    if not fsd["vdso"]:
+        outcomes.append("vdso:feature-off-clause-vacuous")
+    elif ptr is None:
+        # no symbol table: fall back to timing (informational)
+        in_use = lib_ns * 2 < sys_ns
+        outcomes.append("vdso:in-use-by-timing" if in_use else "vdso:unknown-or-not-in-use-by-timing")
+    elif ptr:
+        outcomes.append("vdso:function-found-clause-live")
+        if aux and aux.get(33) and not (aux[33] <= ptr < aux[33] + 0x4000):
+            facts["vdso_ptr_outside_vdso"] = hex(ptr)
+    else:
+        outcomes.append("vdso:function-not-found-clause-vacuous" if (aux is None or aux.get(33)) else "vdso:no-vdso-mapped-clause-vacuous")
+    facts["lib_ns_per_call"] = lib_ns / N_PAIRS
+    facts["sys_ns_per_call"] = sys_ns / N_PAIRS
 
     # ---- relocation self-check
     if b"L" in by:
@@ -635,7 +737,7 @@ def run_case(cfg, path, peek_plan, argv_shape, env_shape, switch_ids=False):
     code = exit_code_for(argv_shape, env_shape)
     ids = ids_for(code, switch_ids)
     res = run_exec(path, argv, envp, control_block(code, peek_plan), ids=ids)
-    problems, outcomes, facts = judge(path, argv, envp, code, peek_plan, res, ids)
+    problems, outcomes, facts = judge(path, argv, envp, code, peek_plan, res, ids, cell_of(cfg)[0])
     outcomes.append("ids:switched-to-nonzero-uid-gid" if ids else "ids:drivers-own")
     return dict(cfg=cfg, argv_shape=argv_shape, env_shape=env_shape, problems=problems, outcomes=outcomes, facts=facts,
                 argv=_show_list(argv, 10), envp=_show_list(envp, 6), exit=code)
@@ -648,15 +750,20 @@ def _batch(task):
 
 # --------------------------------------------------------------------------- the step
 
-RULE = ("End-to-end: the probe executable (tiny-std `_start`, features executable) is built from the repository tree in "
-        "{dynamic PIE, static, static PIE} x {debug, release}; each binary is exec'd by raw execve with every listed (argv shape, envp shape) "
-        "pair -- quick: every argv shape with a typical environment, every envp shape with a plain argv, and a diagonal of mixed pairs; "
-        "thorough: the full Cartesian grid, extended by argc = 2..16 and 2..16 environment entries with string lengths cycling 0..6 -- lookup keys (present, absent, proper prefix of a present name, extension of one) travel after "
-        "`--keys`. A case is one exec of one binary; each is distinct by construction. Compared byte for byte: args_os()==argv, args()==argv "
-        "where UTF-8 else Err, var_unix/var == first entry whose bytes before the first '=' equal the key (keys that are empty or contain '=' "
-        "not judged), aux getters and the stored aux struct == that process's /proc/self/auxv, every R_X86_64_RELATIVE slot of a "
-        "self-relocated image == base+addend, exit status == main's return value. The vDSO clause is SAMPLED: per exec 1000 readings per "
-        "clock (MONOTONIC, REALTIME) through tiny-std's now() must each lie between the two clock_gettime system calls around them.")
+RULE = ("End-to-end: the probe executable (started by tiny-std `_start`) is built from the repository tree in every legal cell of "
+        "FEATURE SET {executable; start+symbols+aux; start+symbols (no aux: the other copy of resolve()); executable+threaded+global-allocator; "
+        "start+symbols+threaded+global-allocator} x LINK MODE {dynamic PIE, static, static PIE (only with aux: nothing else relocates it)} x "
+        "{debug, release}; each binary is exec'd by raw execve with (argv shape, envp shape) pairs. The `executable` set gets the full sweep -- "
+        "quick: every argv shape with a typical environment, every envp shape with a plain argv, and a diagonal of mixed pairs; thorough: the "
+        "full Cartesian grid, extended by argc = 2..16 and 2..16 environment entries with string lengths cycling 0..6. The other feature sets "
+        "get, in quick, a reduced sweep (argc in {0, 1, >=3} x envp in {empty, 1 entry, 3 entries with first/last/middle entry wanted} plus "
+        "typical, prefix-name and duplicate environments) and in thorough the same full grid. Lookup keys (present, absent, proper prefix of a "
+        "present name, extension of one) travel after `--keys`. A case is one exec of one binary; each is distinct by construction. Compared byte "
+        "for byte: args_os()==argv, args()==argv where UTF-8 else Err, var_unix/var == first entry whose bytes before the first '=' equal the key "
+        "(keys that are empty or contain '=' not judged), exit status == main's return value; where `aux` is compiled: aux getters and the stored "
+        "aux struct == that process's /proc/self/auxv, every R_X86_64_RELATIVE slot of a self-relocated image == base+addend. The vDSO clause is "
+        "SAMPLED: per exec 1000 readings per clock (MONOTONIC, REALTIME) through tiny-std's now() must each lie between the two clock_gettime "
+        "system calls around them (live where `vdso` is compiled, vacuous elsewhere).")
 
 
 def c07_start(tier="quick", seed=0, out=None, step=None, build=None, bin_path=None, env=None, replay=None):
@@ -665,25 +772,35 @@ def c07_start(tier="quick", seed=0, out=None, step=None, build=None, bin_path=No
         return _replay(replay, env)
     t0 = time.time()
     crate, target_root, repo = _crate_and_targets()
-    built = builds(env)
-    t_build = time.time() - t0
     caps, notes = [], []
-    usable = []
-    for m, p in CONFIGS:
-        b = built[f"{m}-{p}"]
-        if b["ok"]:
-            usable.append((f"{m}-{p}", b["path"]))
+    have = repo_features(repo)
+    cells = []
+    for f in FEATURE_SETS:
+        missing = [n for n in f["needs"] if n not in have]
+        if missing:
+            caps.append(f"feature set {f['name']} left out: tiny-std/Cargo.toml in {repo} has no feature {missing}")
         else:
-            caps.append(f"configuration {m}-{p} does not build from {repo} and was left out: {b['err']}")
+            cells += [c for c in CELLS if c[0] == f["name"]]
+    built = builds(env, cells)
+    t_build = time.time() - t0
+    usable = []
+    for fs, m, p in cells:
+        cfg = cfg_name(fs, m, p)
+        b = built[cfg]
+        if b["ok"]:
+            usable.append((cfg, b["path"]))
+        else:
+            caps.append(f"configuration {cfg} (feature set {fs}) does not build from {repo} and was left out: {b['err']}")
     if not usable:
-        _machinery("the probe builds in none of the six configurations: " + "; ".join(caps)[:1500])
-    notes.append(f"probe built from {repo}; build step {t_build:.1f}s; configurations run: {', '.join(c for c, _ in usable)}")
+        _machinery("the probe builds in no configuration: " + "; ".join(caps)[:1500])
+    notes.append(f"probe built from {repo}; build step {t_build:.1f}s; {len(usable)} configurations run: {', '.join(c for c, _ in usable)}")
+    notes.append("cells not legal and not built: " + ", ".join(f"{m}-{fs}" for fs, m in ILLEGAL_CELLS) +
+                 " (without `aux` nothing relocates a static PIE; tiny_start::start::resolve documents the segfault)")
     notes.append("release configurations link only because the probe supplies `strlen` itself (rustc 1.95 turns rusl's strlen loop into a "
                  "call to an undefined `strlen`); the repository's own release runners do not link on this toolchain")
-    pairs = shape_pairs(tier)
+    full, reduced = shape_pairs(tier), (shape_pairs(tier) if tier == "thorough" else reduced_pairs())
     jobs = int(os.environ.get("VERIF_START_JOBS", "0") or 0) or min(16, os.cpu_count() or 4)
     tasks = []
-    plans = {}
     ctx = multiprocessing.get_context("fork")
     switch_ids = _can_switch_ids(usable[0][1], ctx)
     if not switch_ids:
@@ -691,16 +808,21 @@ def c07_start(tier="quick", seed=0, out=None, step=None, build=None, bin_path=No
                     "complete a plain run): get_uid/get_gid compared for "
                     f"uid={os.getuid()} gid={os.getgid()} only")
     for cfg, path in usable:
+        fsd = FS_BY[cell_of(cfg)[0]]
         plan = _peek_plan(path)
-        plans[cfg] = plan
-        if len(plan) < 2:
-            caps.append(f"{cfg}: private statics not found in the symbol table ({[n for n, _, _ in plan]}); stored aux struct / vDSO pointer not read")
+        want = [n for n, on in (("aux", fsd["aux"]), ("vdso", fsd["vdso"])) if on]
+        lacking = [n for n in want if n not in [x for x, _, _ in plan]]
+        if lacking:
+            caps.append(f"{cfg}: private statics {lacking} not found in the symbol table; stored aux struct / vDSO pointer not read")
+        pairs = full if fsd["name"] == "exe" else reduced
         # heavy shapes spread out: chunk the pairs round-robin
-        nchunks = max(1, min(len(pairs), (jobs * 2) // max(1, len(usable)) or 1))
+        nchunks = max(1, min(len(pairs), (jobs * 2) // max(1, len(usable)) or 1, len(pairs) // 4 or 1))
         for c in range(nchunks):
             chunk = pairs[c::nchunks]
             if chunk:
                 tasks.append((cfg, path, plan, chunk, switch_ids))
+    # big batches first so the pool drains evenly
+    tasks.sort(key=lambda t: -len(t[3]))
     results = []
     with concurrent.futures.ProcessPoolExecutor(max_workers=jobs, mp_context=ctx) as ex:
         for r in ex.map(_batch, tasks):
@@ -708,10 +830,16 @@ def c07_start(tier="quick", seed=0, out=None, step=None, build=None, bin_path=No
     # simplest first: order of the shape lists, then configuration
     order_a = {n: i for i, (n, _, _) in enumerate(ARGV_SHAPES)}
     order_e = {n: i for i, (n, _, _) in enumerate(ENV_SHAPES)}
+    order_e["three"] = 2.5  # a plain shape: sort it with the plain ones
+    order_e["fixed-key-last"] = 2.6
     order_c = {c: i for i, (c, _) in enumerate(usable)}
     results.sort(key=lambda r: (order_a[r["argv_shape"]] + order_e[r["env_shape"]], order_a[r["argv_shape"]], order_e[r["env_shape"]], order_c[r["cfg"]]))
     rep = report_from(results, tier, caps, notes)
-    rep["bounds"].update(configurations=[c for c, _ in usable], jobs=jobs, build_s=round(t_build, 1), run_s=round(time.time() - t0 - t_build, 1))
+    for fs, m in ILLEGAL_CELLS:
+        rep["outcomes"][f"cell:{m}-{fs}/not-legal-not-built"] = 1
+    rep["bounds"].update(configurations=[c for c, _ in usable], feature_sets=sorted({cell_of(c)[0] for c, _ in usable}),
+                         full_sweep_pairs=len(full), reduced_sweep_pairs=len(reduced), jobs=jobs, build_s=round(t_build, 1),
+                         run_s=round(time.time() - t0 - t_build, 1))
     if out:
         json.dump(rep, open(out, "w"), indent=1)
     return rep
@@ -747,16 +875,18 @@ def report_from(results, tier, caps, notes):
             outcomes[name] = outcomes.get(name, 0) + 1
         comparisons += len(r["outcomes"])
         vdso_pairs += r["facts"].get("vdso_pairs", 0)
-        for k in ("auxv_unreadable", "auxv_uid_mismatch_with_driver", "execfn_not_exec_path", "vdso_ptr_outside_vdso", "other_reloc_tables"):
+        for k in ("auxv_unreadable", "auxv_uid_mismatch_with_driver", "execfn_not_exec_path", "vdso_ptr_outside_vdso", "other_reloc_tables",
+                  "feature_flags_mismatch"):
             if k in r["facts"]:
                 odd[k] = odd.get(k, 0) + 1
         for suffix, text in r["problems"]:
             key = f"C07:{cfg}:{suffix}"
             v = violations.get(key)
             if v is None:
+                fs = cell_of(cfg)[0]
                 violations[key] = dict(key=key, count=1,
-                                       desc=f"[argv shape {r['argv_shape']}, env shape {r['env_shape']}] {text}",
-                                       replay=dict(cfg=cfg, argv_shape=r["argv_shape"], env_shape=r["env_shape"], argv=r["argv"], envp=r["envp"]))
+                                       desc=f"[feature set {fs} ({'+'.join(FS_BY[fs]['needs'])}), argv shape {r['argv_shape']}, env shape {r['env_shape']}] {text}",
+                                       replay=dict(cfg=cfg, feature_set=fs, argv_shape=r["argv_shape"], env_shape=r["env_shape"], argv=r["argv"], envp=r["envp"]))
             else:
                 v["count"] += 1
         if len(samples) < 10 and (r["argv_shape"], r["env_shape"]) in (("one-arg", "typical"), ("one-arg", "prefix-short-first"),
@@ -783,9 +913,9 @@ def report_from(results, tier, caps, notes):
 def _replay(d, env):
     rp = d.get("replay", d)
     cfg, a, e = rp["cfg"], rp["argv_shape"], rp["env_shape"]
-    mode, profile = cfg.rsplit("-", 1)
+    fs, mode, profile = cell_of(cfg)
     crate, target_root, repo = _crate_and_targets()
-    b = builds(env, [(mode, profile)])[cfg]
+    b = builds(env, [(fs, mode, profile)])[cfg]
     if not b["ok"]:
         _machinery(f"{cfg} does not build: {b['err']}")
     plan = _peek_plan(b["path"])
@@ -793,7 +923,7 @@ def _replay(d, env):
     switch_ids = _can_switch_ids(b["path"], ctx)
     with concurrent.futures.ProcessPoolExecutor(max_workers=1, mp_context=ctx) as ex:
         r = ex.submit(run_case, cfg, b["path"], plan, a, e, switch_ids).result()
-    print(f"replay C07 {cfg}: binary {b['path']} (built from {repo})")
+    print(f"replay C07 {cfg}: feature set {fs} (tiny-std features {'+'.join(FS_BY[fs]['needs'])}), binary {b['path']} (built from {repo})")
     print(f"  argv shape {a}: {r['argv']}")
     print(f"  env  shape {e}: {r['envp']}")
     print(f"  observed: {', '.join(sorted(set(r['outcomes'])))}")
